@@ -748,6 +748,7 @@ func errStr(err error) string {
 // doOp executes one operator operation on m, recording it in the history.
 func (s *sched) doOp(task int, op COp) {
 	rec := func(kind, input string, f func() string) {
+		clockTick("an operator call")
 		h := histOp{Task: task, Kind: kind, Input: input}
 		s.seq++
 		h.Call = s.seq
@@ -823,6 +824,7 @@ func (h seamHandler) ServeHTTP(w http.ResponseWriter, _ *http.Request) {
 
 func (s *sched) doReq(task int, op COp) {
 	q := *op.Req
+	clockTick("a request")
 	h := histOp{Task: task, Kind: "req", Input: q.String()}
 	s.seq++
 	h.Call = s.seq
